@@ -144,6 +144,14 @@ def c03_scenarios(cases, prop):
             expr, ev = bad_policy(irr, c["class"], k)
             running.append(stmt(name, f"/* bgpfu-fltr: {expr} */"))
             policies[name] = exp(True, True, ev, why=f"{c['class']} installed={c['installed']}")
+    # several installed policies whose expressions share one unobtainable set (and one that mixes it with good data)
+    for cls in ("unknown-as-set", "error-F"):
+        sexpr, sev = bad_policy(irr, cls, f"-SHARED-{cls[:3].upper()}")
+        for i in range(3):
+            name = f"shared-{cls[:3]}-{i}"
+            eph0.append(installed(name, ["a", "b"], ["c"]))
+            running.append(stmt(name, f"/* bgpfu-fltr: {sexpr} */"))
+            policies[name] = exp(True, True, sev, why=f"{cls} shared by several policies, installed=True")
     for i in range(2):
         name = f"good-{i}"; expr = irr.asset_with(["a", "b"], [])
         running.append(stmt(name, f"/* bgpfu-fltr: {expr} */"))
